@@ -581,7 +581,14 @@ class Symex:
         elif isinstance(s, (ast.Import, ast.ImportFrom)):
             self._local_import(s)
         elif isinstance(s, FuncNode):
-            self.frames[-1][s.name] = Func(s, list(self.frames), self.module, getattr(s, "_qual", s.name))
+            f = Func(s, list(self.frames), self.module, getattr(s, "_qual", s.name))
+            # defaults of a nested function are evaluated at definition time in the enclosing scope
+            a = s.args
+            allp = a.posonlyargs + a.args
+            pairs = list(zip([p.arg for p in allp][len(allp) - len(a.defaults):], a.defaults)) + \
+                [(p.arg, d) for p, d in zip(a.kwonlyargs, a.kw_defaults) if d is not None]
+            f.defaults = {p: self.ev(d) for p, d in pairs if not isinstance(d, ast.Constant)}
+            self.frames[-1][s.name] = f
         elif isinstance(s, ast.Try):
             self.try_stmt(s)
         elif isinstance(s, ast.With):
@@ -1630,7 +1637,7 @@ class Symex:
             return fv(self, list(args), kw)
         self.unsupported(node, f"call of {type(fv).__name__}")
 
-    def bind(self, fn, args, kw, skip_self=False, fill_defaults=False, lenient=False):
+    def bind(self, fn, args, kw, skip_self=False, fill_defaults=False, lenient=False, preset=None):
         a = fn.args
         params = [p.arg for p in a.posonlyargs + a.args]
         if skip_self and params:
@@ -1672,6 +1679,8 @@ class Symex:
         for p in params + [p.arg for p in a.kwonlyargs]:
             if p in out:
                 ordered[p] = out.pop(p)
+            elif preset and p in preset:
+                ordered[p] = preset[p]
             elif p in defaults:
                 d = defaults[p]
                 if not lenient or isinstance(d, ast.Constant) or (isinstance(d, ast.UnaryOp) and isinstance(d.operand, ast.Constant)):
@@ -1715,7 +1724,7 @@ class Symex:
                 a = list(args)
                 if f.bound is not None:
                     a = [f.bound] + a
-                frame = self.bind(fn, a, kw)
+                frame = self.bind(fn, a, kw, preset=getattr(f, "defaults", None))
             self.frames, self.module = list(f.frames) + [frame], f.module
             is_gen = getattr(fn, "_sx_is_gen", None)
             if is_gen is None:   # cached on the node: the walk dominates the cost of small inlined helpers
